@@ -13,14 +13,14 @@ import (
 )
 
 func writeInfraEvidence(prop, tier string, seed int64, wall time.Duration, msg string) {
-	os.MkdirAll(filepath.Join(verifDir, "evidence"), 0755)
+	os.MkdirAll(filepath.Join(outDir, "evidence"), 0755)
 	ev := map[string]any{
 		"property_id": prop, "tier": tier, "seed": seed, "level": "other",
 		"coverage": map[string]any{"explanation": "the check could not run: " + msg, "evaluations": 0, "distinct_nontrivial": 0},
 		"wall_s":   wall.Seconds(),
 	}
 	b, _ := json.MarshalIndent(ev, "", " ")
-	os.WriteFile(filepath.Join(verifDir, "evidence", prop+".json"), b, 0644)
+	os.WriteFile(filepath.Join(outDir, "evidence", prop+".json"), b, 0644)
 }
 
 func (r *propRun) writeEvidence(wall time.Duration) {
@@ -154,7 +154,7 @@ func (r *propRun) writeEvidence(wall time.Duration) {
 		"coverage": cov, "assumptions": al, "wall_s": wall.Seconds(), "violations": len(r.confirmed),
 	}
 	b, _ := json.MarshalIndent(ev, "", " ")
-	os.WriteFile(filepath.Join(verifDir, "evidence", r.prop+".json"), b, 0644)
+	os.WriteFile(filepath.Join(outDir, "evidence", r.prop+".json"), b, 0644)
 }
 
 // crossCheckLogs replays logged solver sessions on z3-new and cvc5 and compares the answer
